@@ -24,9 +24,9 @@ RULE = ('sweep: all labelled import digraphs (self imports allowed) over k<=2 (q
         'OID cycle, injected parser/symbol-table/generator error} x ignoreErrors x borrower yes/no; seeded: random graphs with several failures. '
         'distinct = distinct (status multiset, options, fault kinds, component counts, stage); non-trivial = every sweep world (one planted failure) and seeded worlds with a fault or >=2 modules')
 ASSUMPTIONS = ['a file with a module that fails the symbol-table stage is refused as a whole: the failure is that of the name the file was fetched as']
-SWEEP_SET = {'quick': 'digraphs k<=2 x module x 13 failure stages x ignoreErrors x borrower', 'thorough': 'digraphs k<=3 x module x 13 failure stages x ignoreErrors x borrower'}
+SWEEP_SET = {'quick': 'digraphs k<=2 x module x 14 failure stages x ignoreErrors x borrower', 'thorough': 'digraphs k<=3 x module x 14 failure stages x ignoreErrors x borrower'}
 
-STAGES = ['missing', 'reader-error', 'lex', 'syntax', 'cut', 'empty', 'dupsym', 'unkparent', 'badref', 'oidcycle',
+STAGES = ['missing', 'reader-error', 'lex', 'syntax', 'cut', 'empty', 'dupsym', 'unkparent', 'augunk', 'badref', 'oidcycle',
           'inj-parser', 'inj-symtab', 'inj-codegen']
 
 
@@ -94,6 +94,24 @@ def sweep(tier):
                 out.append({'modules': specs, 'codegen': 'json', 'files': {'BBB-MIB': list(order)}, 'co_only': ['AAA-MIB'], 'requested': ['CCC-MIB', 'BBB-MIB'],
                             'sources': [{'holds': {'BBB-MIB': {'o': 'ok', 'variants': {'BBB-MIB': v}}, 'CCC-MIB': {'o': 'ok'}}, 'base': 'all', 'mtime': core.EPOCH0 - 50}],
                             'searchers': [], 'borrowers': [], 'options': {'ignoreErrors': True} if ignore else {}, 'stage': 'bundled-' + v})
+    # one long-lived compiler, two calls: between them a dependency is replaced by a release that renamed its root node
+    # (same file time), while the module that hangs its objects below that node is unchanged
+    for ignore in (False, True):
+        for rebuild in (False, True):
+            for req2 in (['AAA-MIB'], ['AAA-MIB', 'BBB-MIB'], ['CCC-MIB']):
+                specs = {}
+                for i_, n_ in enumerate(('AAA-MIB', 'BBB-MIB', 'CCC-MIB')):
+                    specs[n_] = {'name': n_, 'imports': [], 'oidparent': None, 'arc': 100 + i_, 'identity': i_ == 1, 'nobj': 1, 'arcs': [1], 'compliance': False, 'variant': 'ok'}
+                specs['AAA-MIB'].update(imports=['BBB-MIB'], oidparent='BBB-MIB')
+                specs['CCC-MIB'].update(imports=['AAA-MIB', 'BBB-MIB'], oidparent='AAA-MIB')
+                o2 = {}
+                if ignore:
+                    o2['ignoreErrors'] = True
+                if rebuild:
+                    o2['rebuild'] = True
+                out.append({'modules': specs, 'codegen': 'json', 'files': {}, 'requested': ['CCC-MIB'], 'searchers': [], 'borrowers': [], 'options': {},
+                            'sources': [{'holds': {n_: {'o': 'ok'} for n_ in specs}, 'base': 'all', 'mtime': core.EPOCH0 - 50}], 'stage': 'dependency-renamed-its-root-between-calls',
+                            'second': {'requested': req2, 'options': o2, 'gain': {}, 'lose': {}, 'respec': {'BBB-MIB': {'rootname': 'bbbMibTrunk'}}}})
     return out
 
 
@@ -179,7 +197,7 @@ def judge(t):
                     t.world.probe('failure-known-from-ground-truth-only')
     # ground truth: a module that was looked up and of which every copy any source holds is broken in a way that stops
     # parsing or symbol-table building cannot have been loaded - whatever the parser made of the text
-    UNLOADABLE = ('lex', 'lexpct', 'syntax', 'forbidden', 'cut', 'cutmacro', 'empty', 'dupsym', 'dupsymfwd', 'unkparent')
+    UNLOADABLE = ('lex', 'lexpct', 'syntax', 'forbidden', 'cut', 'cutmacro', 'empty', 'dupsym', 'dupsymfwd', 'unkparent', 'augunk')
     looked_up = set(c.mib for c in t.by('src.getData')) | set(scn.get('requested', ()))
     if not scn.get('alias') and not scn.get('second') and t.second is None:
         for n_ in sorted(looked_up):
@@ -194,6 +212,21 @@ def judge(t):
             if copies and all(((h_.get('variants') or {}).get(n_) or sp.get('variant', 'ok')) in bad_ for h_ in copies):
                 F.add(n_)
                 t.world.probe('failure-known-from-ground-truth-only')
+    # ground truth: a module that hangs its objects below a node it imports from a module which (in the release the
+    # sources hold now) does not define that node cannot be generated - whatever the generator object remembers from
+    # earlier calls
+    if not scn.get('alias') and not scn.get('files') and not scn.get('inject') and not scn.get('template'):
+        specs_ = scn.get('modules', {})
+        plain = lambda n_: all('variants' not in h_ and 'text' not in h_ for s_ in scn.get('sources', ()) for k_, h_ in s_.get('holds', {}).items() if k_ == n_)
+        parsed_now = set(m for a_ in cs.attempts_of(t) if a_['ok'] for (m, _x, _y) in a_['mods'])
+        for m_, sp in sorted(specs_.items()):
+            d_ = sp.get('oidparent')
+            if d_ and d_ != m_ and specs_.get(d_, {}).get('rootname') and sp.get('variant', 'ok') == 'ok' and plain(m_) and plain(d_) \
+                    and m_ in parsed_now and d_ in parsed_now and m_ not in supplied_b and m_ not in F:
+                if str(R.get(m_)) == 'compiled' or any(c.mib == m_ for c in t.by('writer.putData')):
+                    F.add(m_)
+                    t.world.probe('failure-known-from-ground-truth-only')
+                    t.world.probe('stale-importer-of-a-renamed-node')
     # ground truth: only a borrower of the requested flavour can make a failure go away
     want_texts = bool(opts.get('genTexts'))
     for c in t.by('borrower.getData'):
